@@ -564,6 +564,11 @@ func (p *Program) pfErrMayBeNil(fs []Fact, v ssa.Value) bool {
 	if v == nil {
 		return true
 	}
+	// the path facts decide the value as a whole (a merged error tested by `if err != nil` before
+	// it is returned: the phi's nil edge is not taken on this path)
+	if p.nilnessFromFacts(fs, stripConv(v)) == noTri || p.nilnessFromFacts(fs, v) == noTri {
+		return false
+	}
 	for _, pv := range p.possibleValues(v) {
 		if p.pfOneErrMayBeNil(fs, pv) {
 			return true
